@@ -86,6 +86,14 @@ func genC03(tier string, seed uint64) *simkit.Plan {
 			st.Cid = r.Intn(ncids)
 			fp := factorPairs[r.Intn(len(factorPairs))]
 			st.RMin, st.RMax = fp[0], fp[1]
+			if r.Chance(0.15) {
+				// only one factor given, the other comes from the configuration
+				if r.Bool() {
+					st.RMin = 0
+				} else {
+					st.RMax = 0
+				}
+			}
 			nonce++
 			st.Name = fmt.Sprintf("n%d", nonce)
 			if r.Chance(0.2) {
@@ -296,8 +304,13 @@ func (w *world) judgeAlloc(op string, ci int, f allocFacts, rmin, rmax int, excl
 	v := func(clause, format string, a ...interface{}) {
 		w.run.Violate("C03/"+clause, op, "%s cid%d rf=%d/%d: %s", op, ci, rmin, rmax, fmt.Sprintf(format, a...))
 	}
-	// invalid factor pairs are C04's refusals; nothing to judge here
+	// a pair that is invalid once the configured defaults are filled in cannot be
+	// honoured by any allocation: the call must fail (the refusal itself, with the
+	// pinset left alone, is C04's clause)
 	if rmin == 0 || rmax == 0 || rmin < -1 || rmax < -1 || (rmin > rmax) || (rmin == -1) != (rmax == -1) {
+		if err == nil && isPin {
+			v("invalid_factors_accepted", "the effective factors are not a valid pair, yet the pin succeeded with allocations %v", w.idxs(allocs))
+		}
 		return
 	}
 	if f.boundary {
